@@ -88,8 +88,8 @@ struct alignas(64) ThreadShared {
          st_downgrades = 0, st_read_sections = 0, st_write_sections = 0, st_native = 0, st_ctor = 0, st_sleep_holds = 0, st_noop_trans = 0, st_txn = 0, st_reupgrades = 0;
 };
 
-// reupgrade: may one hold contain upgrade -> downgrade -> upgrade? Always, except on queuing_rw_mutex outside class R: there the
-// pattern strands a waiting upgrader (genuine defect, see class R), so it is kept apart from everything else.
+// reupgrade: may one hold contain upgrade -> downgrade -> upgrade? Always. (On queuing_rw_mutex the pattern used to strand a waiting
+// upgrader - found by class R, repaired by fix 8d13147 - and was kept apart from the other classes until then.)
 struct RoundParams { int cls, nlocks, profile, nops, wpct, trypct; bool heavy; int holder_mode, ntries, upgraders; bool reupgrade; };
 
 struct Batch {
@@ -461,7 +461,7 @@ static RoundParams make_params(Batch& B, uint64_t rseed) {
     if (B.only_cls >= 0) p.cls = B.only_cls;
     if (p.cls == C_U && (!B.rw || B.nthreads < 2)) p.cls = C_X;
     if (p.cls == C_R && B.kind != K_QUEUING_RW) p.cls = C_X;
-    p.reupgrade = B.kind != K_QUEUING_RW || p.cls == C_R;
+    p.reupgrade = true;   // queuing_rw_mutex used to strand a waiting upgrader here (repaired in /repo: fix 8d13147); every class produces the pattern now
     p.nlocks = ((p.cls == C_X || p.cls == C_R) && r.chance(1, 4)) ? 2 : 1;
     bool sleeper = B.kind == K_MUTEX || B.kind == K_RW;
     unsigned y = (unsigned)r.below(100);
